@@ -691,6 +691,11 @@ def context_history_case(ctx, case):
 
     @icontract.invariant(inv)
     class K:
+        def __init__(self):
+            # (also run again on the existing object: ``o.__init__()`` is a checked constructor call that may fail)
+            if raise_in_body:
+                raise make_fault(raise_in_body[0])
+
         def m(self, x):
             log.append(("o", "body"))
             if raise_in_body:
@@ -698,6 +703,7 @@ def context_history_case(ctx, case):
             return x
 
     o = K()
+    del log[:]
     contexts = {"own": None}
 
     def in_context(name, fn):
@@ -710,10 +716,17 @@ def context_history_case(ctx, case):
         del raise_in_body[:]
         if how == "violate":
             truth[("f", "pre") if target == "f" else ("o", "inv")] = False
+            if target == "init":
+                # (left violated, the object could not be probed; a failing constructor is played by its body instead)
+                truth.clear()
+                raise_in_body.append("ProgError")
         elif how != "ok":
             raise_in_body.append(how)
         try:
-            (f if target == "f" else o.m)(1)
+            if target == "init":
+                o.__init__()
+            else:
+                (f if target == "f" else o.m)(1)
         except BaseException:  # noqa - the history only needs the call to have ended somehow
             pass
         finally:
@@ -764,7 +777,7 @@ def context_history_case(ctx, case):
 @st.composite
 def st_context_history(draw):
     hows = ["ok", "ok", "violate", "ProgError", "KeyboardInterrupt"]
-    steps = draw(st.lists(st.tuples(st.sampled_from(["own", "own", "copy1", "copy2"]), st.sampled_from(["f", "o"]),
+    steps = draw(st.lists(st.tuples(st.sampled_from(["own", "own", "copy1", "copy2"]), st.sampled_from(["f", "o", "o", "init"]),
                                     st.sampled_from(hows)), min_size=1, max_size=6))
     return {"steps": [list(x) for x in steps]}
 
@@ -786,7 +799,9 @@ def interleaved(ctx, seed, n):
 
     for steps in ([["own", "f", "ok"], ["copy1", "f", "ok"]], [["own", "o", "ok"], ["copy1", "o", "ok"]],
                   [["own", "f", "ok"], ["copy1", "f", "violate"], ["copy2", "f", "ok"]],
-                  [["own", "o", "ok"], ["copy1", "f", "KeyboardInterrupt"], ["own", "f", "ok"], ["copy2", "o", "ProgError"]]):
+                  [["own", "o", "ok"], ["copy1", "f", "KeyboardInterrupt"], ["own", "f", "ok"], ["copy2", "o", "ProgError"]],
+                  [["own", "init", "ProgError"]], [["own", "init", "KeyboardInterrupt"], ["copy1", "init", "ProgError"]],
+                  [["own", "init", "ok"], ["own", "o", "ProgError"], ["own", "init", "violate"]]):
         context_history_case(ctx, {"steps": steps})
 
     @given(st_context_history())
